@@ -129,7 +129,19 @@ def plant(st, n, phi, qs, qp):
 def diagnostics(mods, y, x, nt, levels):
   flevel, sig, pw = levels
   par = mods['par'].TBRMMDesignParameters(n_test=nt, iroas=1.0, flevel=flevel, sig_level=sig, power_level=pw)
-  diag = mods['diag'].TBRMMDiagnostics([float(v) for v in y], par)
+  yy = [float(v) for v in y]
+  if int(abs(sum(yy)) * 1000) % 2 == 0:
+    # "for any pretest series": half of the objects held another pair of series before (and were asked for the impact)
+    diag = mods['diag'].TBRMMDiagnostics([3.0 * v + (j % 4) ** 2 for j, v in enumerate(yy)], par)
+    diag.x = [float(v) * 0.5 + (j % 3) for j, v in enumerate(x)]
+    try:
+      diag.required_impact   # pylint: disable=pointless-statement
+      diag.estimate_required_impact(0.9)
+    except Exception:  # pylint: disable=broad-except
+      pass
+    diag.y = yy
+  else:
+    diag = mods['diag'].TBRMMDiagnostics(yy, par)
   diag.x = [float(v) for v in x]
   return diag
 
@@ -173,9 +185,9 @@ def check_calibration(mods, x, y, nt, levels, quant, want, kind, sign, rng):
     mirrored = float(diag.estimate_required_impact(-corr))
   except Exception as e:  # pylint: disable=broad-except
     return [('RequiredImpactIsTotal', '%s: %s' % (type(e).__name__, e))], None
-  if not rclose(ri * ri, want['ri2'], 1e-8):
-    out.append(('RequiredImpactIsCalibrated', 'required_impact^2=%.15g demanded (q_s+q_p)^2 PostScaleSq=%.15g' % (
-        ri * ri, want['ri2'])))
+  if not rclose(ri * ri, want['ri2'], 1e-8) or (ri * (qs + qp) < 0 and abs(qs + qp) > 1e-9):
+    out.append(('RequiredImpactIsCalibrated', 'required_impact=%.15g (square %.15g), demanded sign(q_s+q_p=%.6g) and '
+                '(q_s+q_p)^2 PostScaleSq=%.15g' % (ri, ri * ri, qs + qp, want['ri2'])))
     return out, ri
   if not (rclose(again, ri, 1e-12) and rclose(mirrored, ri, 1e-12)):
     out.append(('EstimateAtOwnCorrelation', 'required_impact=%.15g, estimate_required_impact(corr)=%.15g, '
@@ -305,6 +317,9 @@ def random_case(seed, i):
   y = [unit * (2.0 * lvl + 0.7 * (rho * u + math.sqrt(1.0 - rho * rho) * v)) for u, v in zip(z, e)]
   levels = (rng.choice([0.9, 0.95, 0.99, rng.uniform(0.9, 0.999)]), rng.choice([0.9, 0.8, rng.uniform(0.55, 0.99)]),
             rng.choice([0.8, 0.5, rng.uniform(0.5, 0.97)]))
+  if i % 3 == 2:
+    # the whole documented domain (0, 1): quantiles of either sign
+    levels = (levels[0], rng.uniform(0.03, 0.99), rng.uniform(0.03, 0.97))
   return {'i': i, 'n': n, 'ntest': nt, 'x': x, 'y': y, 'levels': list(levels)}
 
 
@@ -349,6 +364,11 @@ def run_random(mods, st, rc, seed):
   kind = 'one_geo' if rc['i'] % 2 == 0 else 'two_geos_shuffled'
   bad, ri = check_calibration(mods, x, y, nt, levels, (qs, qp), want, kind, 1.0 if rc['i'] % 4 < 2 else -1.0, rng)
   if ri is None or bad:
+    return bad
+  if qs + qp <= 1e-6:
+    # sig_level / power_level below one half can make the multiplier (q_s + q_p) non-positive: the calibration
+    # identity above still holds (and is checked, sign included), but "decreases as |correlation| grows" is a
+    # statement about a positive required impact and is not judged here
     return bad
   sd = math.sqrt(float(es['Ky'] / n / n))
   bad += check_laws(mods, x, y, nt, levels, ri, (rng.uniform(-20, 20) * sd, rng.uniform(-20, 20) * sd))
